@@ -40,13 +40,12 @@ def apply(F):
 ''')
     F.contract(X, r'fn sk_to_pk\b', ret='r', clauses=SK_TO_PK + ',\n')
     F.contract(X, r'fn dh\b', ret='r', attrs=['#[verifier::external_body]'], discharged_by='TRUSTED (one-line delegation to elliptic_curve::ecdh::diffie_hellman; its impl-Borrow signature is outside Verus)', clauses=DH + ',\n')
-    F.contract(X, r'fn derive_keypair<Kdf: KdfTrait>', ret='r', clauses=DERIVE + ',\n')
+    # loop_isolation(false): facts about variables the loop does not modify (the PRK context, the parameters) stay
+    # available inside the loop, so the invariant names no local except the loop counter (robust against renames)
+    F.contract(X, r'fn derive_keypair<Kdf: KdfTrait>', ret='r', attrs=['#[verifier::loop_isolation(false)]'], clauses=DERIVE + ',\n')
     # N5: the only loop under contract (ghost invariant between the loop header and its body)
     F.loop_invariant(X, r'fn derive_keypair<Kdf: KdfTrait>', r'for counter in\b', '''
                         invariant
-                            kdf_ok::<Kdf>(),
-                            hkdf_ctx.prk() == dkp_prk_spec(nh_of::<Kdf::HashImpl>(), suite_id@, ikm@),
-                            buf.gv().len() == tnum::<$privkey_size>(),
                             forall|d: nat| d < counter ==> !(#[trigger] nist_cand_ok::<CurveTy>(nh_of::<Kdf::HashImpl>(), suite_id@, ikm@, d, tnum::<$privkey_size>(), $keygen_bitmask)),
                             // trigger seeding only (both clauses are `true`): make the solver consider the current counter
                             trig(nist_cand_ok::<CurveTy>(nh_of::<Kdf::HashImpl>(), suite_id@, ikm@, counter as nat, tnum::<$privkey_size>(), $keygen_bitmask)),
